@@ -380,10 +380,15 @@ fn writer_subchunks(version: WmoVersion) -> Vec<(String, Vec<u8>)> {
     let mut out = Cursor::new(Vec::new());
     WmoWriter::new().write_group(&mut out, &g, version).expect("WmoWriter::write_group");
     let b = out.into_inner();
-    // MVER (12 bytes), MOGP header (8), the writer's 36 header bytes, then the sub-chunks
+    // MVER (12 bytes), MOGP header (8), the writer's MOGP header bytes (36 before /repo 84b07db, 68 since),
+    // then the sub-chunks
     assert_eq!(rtag(&b, 12), "MOGP");
     assert_eq!(u32_at(&b, 16) as usize, b.len() - 20);
-    let start = 12 + 8 + 36;
+    let is_tag = |b: &[u8], p: usize| -> bool {
+        p + 8 <= b.len() && b[p..p + 4].iter().all(|c| c.is_ascii_uppercase() || c.is_ascii_digit()) && b[p + 3] == b'M'
+    };
+    let start = if is_tag(&b, 12 + 8 + 36) { 12 + 8 + 36 } else { 12 + 8 + 68 };
+    assert!(is_tag(&b, start), "wmo group: no sub-chunk behind the MOGP header the writer produced");
     // write_liquid declares 32 header bytes but writes 40 (type, flags, w-1, h-1, 6 floats): the
     // MLIQ size field is 8 short; repaired here so that the sub-chunks tile the MOGP payload
     let mut b = b;
@@ -392,7 +397,9 @@ fn writer_subchunks(version: WmoVersion) -> Vec<(String, Vec<u8>)> {
     while p + 8 <= b.len() {
         let t = rtag(&b, p);
         let mut sz = u32_at(&b, p + 4) as usize;
-        if t == "MLIQ" {
+        let tiles = |e: usize, b: &[u8]| e == b.len() || is_tag(b, e);
+        if t == "MLIQ" && !tiles(p + 8 + sz, &b) && tiles(p + 8 + sz + 8, &b) {
+            // before /repo ffa98b6 the declared MLIQ size was 8 bytes short
             sz += 8;
             put32(&mut b, p + 4, sz as u32);
         }
